@@ -2,6 +2,7 @@ import OrsoVerif.Model.PyVal
 import OrsoVerif.Model.Validate
 import OrsoVerif.Model.Family
 import OrsoVerif.Model.RowClass
+import OrsoVerif.Model.Layout
 /-! Driver glue for C05. -/
 namespace Drv.C05
 open Validate
@@ -26,10 +27,20 @@ def decodeVal : PyVal → Option Value
 def decodeRecord (kvs : List (String × PyVal)) : Option Record :=
   kvs.mapM fun (k, v) => (decodeVal v).map fun x => (k, x)
 
+/-- can the row be sized: a Boolean measured by the harness, or `[packable, packed length]` — then the model decides with the
+source's constant and guard (`Layout.sizableBy`) -/
+def decodeZ : PyVal → Option Bool
+  | .bool z => some z
+  | .list [.bool p, .int n] => if n < 0 then none else some (Layout.sizableBy p n.toNat)
+  | _ => none
+
 /-- a record to append: a dict (its row can be sized) or `[dict, sizable]` -/
 def decodeAppend : PyVal → Option (Record × Bool)
   | .dict kvs => (decodeRecord kvs).map fun r => (r, true)
-  | .list [.dict kvs, .bool z] => (decodeRecord kvs).map fun r => (r, z)
+  | .list [.dict kvs, zv] => do
+    let r ← decodeRecord kvs
+    let z ← decodeZ zv
+    pure (r, z)
   | _ => none
 
 def decodeKind : PyVal → Option Kind
@@ -38,8 +49,9 @@ def decodeKind : PyVal → Option Kind
 
 /-- a record object to append: `[dict, sizable, [isinstance dict, exact dict, MutableMapping, Mapping]]` (a plain dict when the facts are left out) -/
 def decodeAppendK : PyVal → Option (Kind × Record × Bool)
-  | .list [.dict kvs, .bool z, k] => do
+  | .list [.dict kvs, zv, k] => do
     let r ← decodeRecord kvs
+    let z ← decodeZ zv
     let k ← decodeKind k
     pure (k, r, z)
   | v => (decodeAppend v).map fun p => (Kind.dict, p.1, p.2)
@@ -120,6 +132,18 @@ def encodeOut : Out → PyVal
   | .outcome o => .list [.str "outcome", encodeOutcome o]
   | .frame rows results => .list [.str "frame", encodeRows rows, .list (results.map encodeResult)]
 
+/-- an operation on frames bound to one schema object that its owner edits -/
+def decodeBOp : PyVal → Option Layout.BOp
+  | .list [.str "edit", o] => (decodeOp o).map .edit
+  | .list [.str "bind", .list rows] => (decodeRows rows).map .bind
+  | .list [.str "read", .int i] => if i < 0 then none else some (.read i.toNat)
+  | .list [.str "append", .int i, .dict kvs, zv, k] => do
+    let r ← decodeRecord kvs
+    let z ← decodeZ zv
+    let k ← decodeKind k
+    if i < 0 then none else pure (.append i.toNat k r z)
+  | _ => none
+
 def handle (op : String) (args : List PyVal) : Option (List PyVal) :=
   match op, args with
   | "validate", [.list cols, .dict r] => do
@@ -156,6 +180,13 @@ def handle (op : String) (args : List PyVal) : Option (List PyVal) :=
     let st0 : RowClass.PSt := ⟨[], []⟩
     pure [.list ((RowClass.runP RowClass.genCfg s st0 ops).regs.map encodeRows),
           .list ((RowClass.resultsP RowClass.genCfg s st0 ops).map encodeResult)]
+  | "bound", [.list cols, .list ops] => do
+    let s ← cols.mapM decodeCol
+    let ops ← ops.mapM decodeBOp
+    let st0 : Layout.BSt := ⟨s, [], none⟩
+    let fin := Layout.runB Layout.genL st0 ops
+    pure [.list (fin.regs.map encodeRows), .list ((Layout.resultsB Layout.genL st0 ops).map encodeResult),
+          .list (fin.cols.map fun c => .str c.name), .list ((Layout.runBR (s, []) ops).2.map encodeRows)]
   | "session", [.list cols, .list ops] => do
     let s ← cols.mapM decodeCol
     let ops ← ops.mapM decodeOp
